@@ -15,6 +15,7 @@ CONSTANTS C,          \* channelCapacity
           Producers, Consumers,
           NOffer,     \* offers per producer
           NTake,      \* take/poll calls per consumer
+          Kinds,      \* consumer call kinds used: subset of {"take", "poll", "ttake"} (Take, Poll, TakeWithTimeout / <-GetChannel() with the caller's timer)
           WithClose,  \* BOOLEAN: a closer thread exists
           GuardedClose \* TRUE: notifyWorkers runs under the read lock and re-checks closed, the loader re-checks closed under
                        \*       the lock (the fixed code); FALSE: the pinned code (flag checked once, outside the lock)
@@ -70,10 +71,16 @@ OfferBody(p) ==
         /\ wake' = 1
         /\ pres' = [pres EXCEPT ![p] = Append(@, "ok")]
         /\ UNCHANGED ch
-  /\ lock' = "free"
   /\ pidx' = [pidx EXCEPT ![p] = @ + 1]
-  /\ ppc' = [ppc EXCEPT ![p] = "start"]
-  /\ UNCHANGED <<closed, wakeClosed, chClosed, lpc, lval, cpc, cidx, cres, ckind, xpc, panicked>>
+  /\ ppc' = [ppc EXCEPT ![p] = "bodydone"]
+  /\ UNCHANGED <<lock, closed, wakeClosed, chClosed, lpc, lval, cpc, cidx, cres, ckind, xpc, panicked>>
+
+\* the deferred Unlock (the item sent into the channel is visible to consumers before this step)
+OfferUnlock(p) ==
+  /\ ppc[p] = "bodydone"
+  /\ lock' = "free" /\ ppc' = [ppc EXCEPT ![p] = "start"]
+  /\ UNCHANGED <<ch, pool, wake, closed, wakeClosed, chClosed, lpc, lval, pidx, pres,
+                 cpc, cidx, cres, ckind, xpc, panicked>>
 
 \* ---------------------------------------------------------------- consumers
 \* kind: "take" (blocking) or "poll"
@@ -114,6 +121,8 @@ ConsRecv(c) ==
         /\ cres' = [cres EXCEPT ![c] = Append(@, IF ckind[c] = "take" THEN Tag("closed") ELSE Tag("zero"))]
         /\ UNCHANGED ch
      \/ /\ Len(ch) = 0 /\ ~chClosed /\ ckind[c] = "poll"
+        /\ UNCHANGED <<cres, ch>>
+     \/ /\ ckind[c] = "ttake" /\ ~chClosed            \* the timer wins the select (possible even when an item is ready)
         /\ UNCHANGED <<cres, ch>>
   /\ cpc' = [cpc EXCEPT ![c] = "start"]
   /\ UNCHANGED <<cidx, pool, wake, closed, wakeClosed, chClosed, lock, lpc, lval,
@@ -189,13 +198,13 @@ CloseCh ==
                  ppc, pidx, pres, cpc, cidx, cres, ckind, panicked>>
 
 Next ==
-  \/ \E p \in Producers : OfferLock(p) \/ OfferBody(p)
-  \/ \E c \in Consumers : (\E k \in {"take","poll"} : ConsStart(c, k)) \/ ConsNotify(c) \/ ConsRecv(c)
+  \/ \E p \in Producers : OfferLock(p) \/ OfferBody(p) \/ OfferUnlock(p)
+  \/ \E c \in Consumers : (\E k \in Kinds : ConsStart(c, k)) \/ ConsNotify(c) \/ ConsRecv(c)
   \/ LoaderWake \/ LoaderCheck \/ LoaderLock \/ LoaderPoll \/ LoaderPush \/ LoaderSleep
   \/ CloseLock \/ CloseFlag \/ CloseWake \/ CloseCh
 
 Spec == Init /\ [][Next]_vars
-FairSpec == Init /\ [][Next]_vars /\ (\A p \in Producers : WF_vars(OfferLock(p) \/ OfferBody(p))) /\ (\A c \in Consumers : WF_vars((\E k \in {"take","poll"} : ConsStart(c, k)) \/ ConsNotify(c) \/ ConsRecv(c))) /\ WF_vars(LoaderWake \/ LoaderCheck \/ LoaderLock \/ LoaderPoll \/ LoaderPush \/ LoaderSleep)
+FairSpec == Init /\ [][Next]_vars /\ (\A p \in Producers : WF_vars(OfferLock(p) \/ OfferBody(p) \/ OfferUnlock(p))) /\ (\A c \in Consumers : WF_vars((\E k \in Kinds : ConsStart(c, k)) \/ ConsNotify(c) \/ ConsRecv(c))) /\ WF_vars(LoaderWake \/ LoaderCheck \/ LoaderLock \/ LoaderPoll \/ LoaderPush \/ LoaderSleep)
 
 \* ---------------------------------------------------------------- properties
 Accepted == UNION {{Val(p, i) : i \in {j \in 1..Len(pres[p]) : pres[p][j] = "ok"}} : p \in Producers}
